@@ -134,13 +134,19 @@ impl TplLitTypeItem {
             TplLitTypeItem::OneOf(vs) => {
                 let mut vs = vs.iter().collect::<Vec<_>>();
                 vs.sort();
-                let vs = vs
+                let all = vs.into_iter().map(|it| it.regex_expr()).collect::<Vec<_>>();
+                // an alternative that is the empty string makes the whole group optional
+                let has_empty = all.iter().any(|it| it.is_empty());
+                let vs = all
                     .into_iter()
-                    .map(|it| it.regex_expr())
                     .filter(|it| !it.is_empty())
                     .collect::<Vec<_>>();
                 let vs = vs.join("|");
-                format!("({})", vs)
+                if has_empty {
+                    format!("({})?", vs)
+                } else {
+                    format!("({})", vs)
+                }
             }
             TplLitTypeItem::StringConst(lit) => {
                 if lit.is_empty() {
